@@ -29,9 +29,9 @@ fn blocks(ctx: &mut Ctx) {
     let name = format!("{}/blocks", fam.name());
     ctx.subject(&name);
     let w = ctx.cfg.par;
-    let (iv, _) = wl::iv(&mut ctx.rng, de.iv_len);
+    let (iv, _) = mode_iv(ctx, de.iv_len);
     let n = if fam == Family::Cfb8 { wl::nbytes(&mut ctx.rng, ctx.cfg.bs, w, ctx.tier).0.min(400) } else { wl::nblocks(&mut ctx.rng, w, de.bs, ctx.tier).0 };
-    let (msg, _) = wl::data(&mut ctx.rng, n * de.bs);
+    let (msg, _) = mode_data(ctx, n * de.bs);
     let (pa, sa) = gen_pieces(ctx, n, w);
     let (pb, sb) = gen_pieces(ctx, n, w);
     let (fa, fb) = (*ctx.rng.pick(&ALL_FILLS), *ctx.rng.pick(&ALL_FILLS));
@@ -82,7 +82,7 @@ fn padded(ctx: &mut Ctx) {
     let name = format!("{}/padded", fam.name());
     ctx.subject(&name);
     let b = de.bs;
-    let (iv, _) = wl::iv(&mut ctx.rng, de.iv_len);
+    let (iv, _) = mode_iv(ctx, de.iv_len);
     let (mut len, rc) = wl::nbytes(&mut ctx.rng, b.max(2), ctx.cfg.par, ctx.tier);
     if fam == Family::Cfb8 {
         len = len.min(300);
@@ -90,7 +90,7 @@ fn padded(ctx: &mut Ctx) {
     if pad == Pad::NoPadding {
         len -= len % b;
     }
-    let (mut msg, _) = wl::data(&mut ctx.rng, len);
+    let (mut msg, _) = mode_data(ctx, len);
     if pad == Pad::Zero {
         // ZeroPadding is only reversible for messages not ending in a zero byte
         if let Some(l) = msg.last_mut() {
@@ -160,12 +160,12 @@ fn oneshot(ctx: &mut Ctx) {
     let name = format!("{}/oneshot", fam.name());
     ctx.subject(&name);
     let b = ctx.cfg.bs;
-    let (iv, _) = wl::iv(&mut ctx.rng, de.iv_len);
+    let (iv, _) = mode_iv(ctx, de.iv_len);
     let (mut len, rc) = wl::nbytes(&mut ctx.rng, b, ctx.cfg.par, ctx.tier);
     if fam == Family::Cfb8 {
         len = len.min(400);
     }
-    let (msg, _) = wl::data(&mut ctx.rng, len);
+    let (msg, _) = mode_data(ctx, len);
     let (fe, fd) = (*ctx.rng.pick(&FORMS3), *ctx.rng.pick(&FORMS3));
     ctx.note("iv", J::s(hex_short(&iv)));
     ctx.note("msg", J::s(hex_short(&msg)));
@@ -220,9 +220,9 @@ fn buffered(ctx: &mut Ctx) {
     let name = "cfb-buf".to_string();
     ctx.subject(&name);
     let b = ctx.cfg.bs;
-    let (iv, _) = wl::iv(&mut ctx.rng, b);
+    let (iv, _) = mode_iv(ctx, b);
     let (len, rc) = wl::nbytes(&mut ctx.rng, b, ctx.cfg.par, ctx.tier);
-    let (msg, _) = wl::data(&mut ctx.rng, len);
+    let (msg, _) = mode_data(ctx, len);
     let (s1, c1) = wl::byte_schedule(&mut ctx.rng, len, b);
     let (s2, c2) = wl::byte_schedule(&mut ctx.rng, len, b);
     ctx.note("iv", J::s(hex_short(&iv)));
@@ -276,7 +276,7 @@ fn stream(ctx: &mut Ctx) {
     let b = ctx.cfg.bs;
     let (iv, _) = stream_iv(ctx, d.flavor, b);
     let (len, rc) = wl::nbytes(&mut ctx.rng, b, ctx.cfg.par, ctx.tier);
-    let (msg, _) = wl::data(&mut ctx.rng, len);
+    let (msg, _) = mode_data(ctx, len);
     let (s1, c1) = wl::byte_schedule(&mut ctx.rng, len, b);
     let (s2, c2) = wl::byte_schedule(&mut ctx.rng, len, b);
     // stay clear of the end of the keystream: that is C11's subject
@@ -364,7 +364,7 @@ fn core(ctx: &mut Ctx) {
     let w = ctx.cfg.par;
     let (iv, _) = stream_iv(ctx, d.flavor, b);
     let (n, _) = wl::nblocks(&mut ctx.rng, w, b, ctx.tier);
-    let (msg, _) = wl::data(&mut ctx.rng, n * b);
+    let (msg, _) = mode_data(ctx, n * b);
     let (s1, c1) = wl::schedule(&mut ctx.rng, n, w);
     let (s2, c2) = wl::schedule(&mut ctx.rng, n, w);
     let apply_ops = [CoreOp::ApplyBlockInout, CoreOp::ApplyBlocks, CoreOp::ApplyBlocksInout];
@@ -415,11 +415,11 @@ fn cts(ctx: &mut Ctx) {
     let name = format!("{}", d.var.name());
     ctx.subject(&name);
     let b = ctx.cfg.bs;
-    let (iv, _) = wl::iv(&mut ctx.rng, b);
+    let (iv, _) = mode_iv(ctx, b);
     // every length >= b is accepted
     let (extra, rc) = wl::nbytes(&mut ctx.rng, b, ctx.cfg.par, ctx.tier);
-    let len = b + extra.min(wl::MAX_BYTES - b);
-    let (msg, _) = wl::data(&mut ctx.rng, len);
+    let len = b + extra.min(wl::MAX_LONG_BYTES - b);
+    let (msg, _) = mode_data(ctx, len);
     let (fe, fd) = (*ctx.rng.pick(&FORMS3), *ctx.rng.pick(&FORMS3));
     ctx.note("iv", J::s(hex_short(&iv)));
     ctx.note("msg", J::s(hex_short(&msg)));
